@@ -1,12 +1,26 @@
 ---------------------------- MODULE Trace_SubIso ----------------------------
-(* Batch of recorded ISMAGS runs: [G, H, mode : "iso" | "lcs", sym : BOOLEAN, Y] judged by SubIso. *)
-EXTENDS SubIso, Json, IOUtils
+(* Batch of recorded ISMAGS runs [G, H, mode, sym, Y, E, A, chk] judged by SubIso (declarative enumeration: modes "iso",
+   "lcs") or by SubIsoCert (certificate checking: "iso-cert", "lcs-cert", "first-cert"); the modes "iso-both" / "lcs-both"
+   evaluate both judges and require them to agree (small real patterns: ties the certificate judge to the enumeration). *)
+EXTENDS SubIsoCert, Json, IOUtils
 Batch == JsonDeserialize(IOEnv.TRACE_FILE)
 VARIABLES tid, verdict
 vars == <<tid, verdict>>
 Init == tid \in 1..Len(Batch) /\ verdict = "pending"
+
+Both(a, b) == IF a = b THEN a ELSE "judges-disagree: enumeration says " \o a \o ", certificate check says " \o b
+
+Judge(e) ==
+  CASE e.mode = "iso"        -> JudgeIso(e.G, e.H, e.sym, e.Y)
+    [] e.mode = "lcs"        -> JudgeLcs(e.G, e.H, e.sym, e.Y)
+    [] e.mode = "iso-cert"   -> JudgeIsoCert(e.G, e.H, e.sym, e.Y, e.E, e.A, e.chk)
+    [] e.mode = "lcs-cert"   -> JudgeLcsCert(e.G, e.H, e.sym, e.Y, e.E, e.A, e.chk)
+    [] e.mode = "first-cert" -> JudgeFirstCert(e.G, e.H, e.Y, e.E)
+    [] e.mode = "iso-both"   -> Both(JudgeIso(e.G, e.H, e.sym, e.Y), JudgeIsoCert(e.G, e.H, e.sym, e.Y, e.E, e.A, e.chk))
+    [] e.mode = "lcs-both"   -> Both(JudgeLcs(e.G, e.H, e.sym, e.Y), JudgeLcsCert(e.G, e.H, e.sym, e.Y, e.E, e.A, e.chk))
+
 Eval == /\ verdict = "pending"
-        /\ verdict' = LET e == Batch[tid] IN IF e.mode = "iso" THEN JudgeIso(e.G, e.H, e.sym, e.Y) ELSE JudgeLcs(e.G, e.H, e.sym, e.Y)
+        /\ verdict' = Judge(Batch[tid])
         /\ UNCHANGED tid
 Spec == Init /\ [][Eval]_vars
 =============================================================================
